@@ -77,8 +77,18 @@ def split_level(ctx, n):
             continue
         data, verdicts = built
         bps = case["width"] * case["channels"]
+        entry = ("split", "region.split", "region.splitp")[rng.randrange(3) if len(case["v"]) <= 20 and len(data) else rng.randrange(2)]
+        ctx.count("split_level_entry_" + entry)
         try:
-            regions = list(auditok.split(data, **AC.split_kwargs(case), **AC.audio_kwargs(case)))
+            if entry == "split":
+                regions = list(auditok.split(data, **AC.split_kwargs(case), **AC.audio_kwargs(case)))
+            elif entry == "region.split":
+                regions = list(auditok.AudioRegion(data, case["rate"], case["width"], case["channels"]).split(**AC.split_kwargs(case)))
+            else:
+                import matplotlib.pyplot as plt
+
+                regions = list(auditok.AudioRegion(data, case["rate"], case["width"], case["channels"]).splitp(show=False, **AC.split_kwargs(case)))
+                plt.close("all")
         except Exception as exc:
             ctx.violation("exception:" + type(exc).__name__, {"case": AC.case_json(case), "exception": repr(exc)[:200]})
             continue
@@ -101,7 +111,7 @@ def split_level(ctx, n):
 
 def run_shard(ctx):
     conf = TIERS[ctx.tier]
-    split_level(ctx, 150 if ctx.tier == "quick" else 8000)
+    split_level(ctx, 120 if ctx.tier == "quick" else 6000)
     for v, params, kind, delivery, origin in T.iter_cases(ctx, conf):
         check_case(ctx, v, params, kind, delivery, origin)
 
@@ -115,4 +125,4 @@ def inconclusive(merged, tier):
     c = merged["counters"]
     return [f"monitor never observed {k}" for k in
             ("tokens_observed", "tokens_with_inner_or_trailing_silence", "continuation_tokens",
-             "silence_run_straddling_a_cut", "drop_mode_tokens", "split_level_regions", "split_level_cases_drop_and_strict") if c.get(k, 0) == 0]
+             "silence_run_straddling_a_cut", "drop_mode_tokens", "split_level_regions", "split_level_cases_drop_and_strict", "split_level_entry_region.splitp") if c.get(k, 0) == 0]
